@@ -206,15 +206,15 @@ func (c *trCtx) rangeStmt(x *ast.RangeStmt, k trK) trLines {
 	case *types.Slice:
 		elemTy = u.Elem()
 	case *types.Map:
-		return c.rangeMap(x, u, k)
+		return c.rangeRec(x, u.Key(), u, k)
 	default:
 		trFail(x.Pos(), "range over %s is outside the subset", tx)
 	}
 	if x.Tok == token.ASSIGN {
 		trFail(x.Pos(), "range with = (assignment to existing variables) is outside the subset")
 	}
-	if trHasReturn(x.Body) {
-		trFail(x.Pos(), "return inside a range loop is outside the subset")
+	if trHasReturn(x.Body) || trHasBreak(x.Body) {
+		return c.rangeRec(x, elemTy, nil, k)
 	}
 	xs := c.expr(x.X)
 	pre := c.takePre()
@@ -288,10 +288,184 @@ func (c *trCtx) rangeStmt(x *ast.RangeStmt, k trK) trLines {
 	return trWrapPre(pre, t)
 }
 
-// rangeMap: the iteration order of a Go map is unspecified: the translated function ranges over an explicit list of keys
-// (an extra parameter `order…` of the function, see trFunc.orders); keys that are no longer in the map are skipped, as Go does
-// for entries deleted during the iteration.
-func (c *trCtx) rangeMap(x *ast.RangeStmt, m *types.Map, k trK) trLines {
-	trFail(x.Pos(), "range over a map is outside the subset")
-	return nil
+func trHasBreak(n ast.Node) bool {
+	found := false
+	ast.Inspect(n, func(m ast.Node) bool {
+		switch x := m.(type) {
+		case *ast.BranchStmt:
+			if x.Tok == token.BREAK {
+				found = true
+			}
+		case *ast.ForStmt, *ast.RangeStmt, *ast.FuncLit, *ast.SwitchStmt:
+			if m != n {
+				return false
+			}
+		}
+		return true
+	})
+	return found
+}
+
+// rangeRec: a range loop as a structural recursion over the list of elements — used when the body can leave the loop
+// (return, break) and for maps.
+//   def F.rangeN (free…) (items : List τ) [(idx : Int)] (state…) : [Outcome] (Flow σ ρ) | σ :=
+//     match items with | [] => exit | el :: items => body; F.rangeN … items [(idx+1)] state'
+// The iteration order of a Go MAP is unspecified: the translated function gets the order as an explicit extra parameter
+// `order<N> : List κ` (the agreement theorem quantifies over it); a key of the order that is not (or no longer: `delete` in the
+// body) in the map is skipped, as Go does; the value is read when the key is reached. Setting entries of the ranged map in the
+// body is rejected (Go leaves open whether they are visited).
+func (c *trCtx) rangeRec(x *ast.RangeStmt, elemTy types.Type, m *types.Map, k trK) trLines {
+	if x.Tok == token.ASSIGN {
+		trFail(x.Pos(), "range with = (assignment to existing variables) is outside the subset")
+	}
+	flow := trHasReturn(x.Body)
+	effect := c.fn.effect && !c.pureMode()
+	if c.pureMode() && c.fn.effect {
+		// inside a pure join of an effectful function: the loop may need the monad; let the caller retry monadically
+		panic(trPureFail{})
+	}
+	xs := c.expr(x.X)
+	pre := c.takePre()
+	state := c.assignedIn(x.Body)
+	if m != nil {
+		// the ranged map must be a variable or field path; entries may only be deleted
+		ast.Inspect(x.Body, func(n ast.Node) bool {
+			if as, ok := n.(*ast.AssignStmt); ok {
+				for _, l := range as.Lhs {
+					if ix, ok := trUnparen(l).(*ast.IndexExpr); ok && trSrc(ix.X) == trSrc(x.X) {
+						trFail(as.Pos(), "setting an entry of the map that is being ranged over is outside the subset")
+					}
+				}
+			}
+			return true
+		})
+	}
+	free := c.freeVars(state, x.X, x.Body)
+	c.nloop++
+	name := c.fn.leanName + ".range" + itoa(c.nloop)
+	tuple, ttyp := c.tupleOf(state)
+	keyName, valName := "", ""
+	if id, ok := x.Key.(*ast.Ident); ok && id.Name != "_" {
+		keyName = c.local(c.info().Defs[id])
+	}
+	if x.Value != nil {
+		if id, ok := x.Value.(*ast.Ident); ok && id.Name != "_" {
+			valName = c.local(c.info().Defs[id])
+		}
+	}
+	et := c.leanType(elemTy, x.Pos())
+	resTy := ttyp
+	exit := tuple
+	if flow {
+		resTy = "(Flow " + ttyp + " " + c.fn.resType + ")"
+		exit = "(Flow.next " + tuple + ")"
+	}
+	if effect {
+		exit = "Outcome.ok " + exit
+		resTy = "Outcome " + resTy
+	}
+	var params, callArgs []string
+	for _, o := range free {
+		params = append(params, "("+c.names[o]+" : "+c.leanType(o.Type(), o.Pos())+")")
+		callArgs = append(callArgs, c.names[o])
+	}
+	var sparams, sargs []string
+	for _, o := range state {
+		sparams = append(sparams, "("+c.names[o]+" : "+c.leanType(o.Type(), o.Pos())+")")
+		sargs = append(sargs, c.names[o])
+	}
+	items := c.fresh("items")
+	el := c.fresh("el")
+	idx := ""
+	if m == nil && keyName != "" {
+		idx = c.fresh("idx")
+	}
+	recArgs := func(first bool) string {
+		parts := append([]string{}, callArgs...)
+		parts = append(parts, items)
+		if idx != "" {
+			if first {
+				parts = append(parts, "(0 : Int)")
+			} else {
+				parts = append(parts, "("+idx+" + 1)")
+			}
+		}
+		parts = append(parts, sargs...)
+		return name + " " + strings.Join(parts, " ")
+	}
+	savedLoop, savedPre := c.loop, c.takePre()
+	lc := &trLoopCtx{kind: "rangerec", flow: flow, outer: savedLoop, wrapOk: effect}
+	lc.cont = func() trLines { return trOne(recArgs(false)) }
+	lc.brk = func() trLines { return trOne(exit) }
+	c.loop = lc
+	body := c.stmts(x.Body.List, lc.cont)
+	c.loop = savedLoop
+	c.pre = savedPre
+	if m != nil {
+		// map: el is the key; skip keys that are not present now
+		mapNow := xs
+		if valName != "" {
+			body = trLet(valName, c.leanType(m.Elem(), x.Pos()), trOne("(AMap.get "+mapNow+" "+el+" (GoZero.zero : "+c.leanType(m.Elem(), x.Pos())+"))"), body)
+		}
+		if keyName != "" {
+			body = trLet(keyName, et, trOne(el), body)
+		}
+		body = trIte("(!Option.isSome (AMap.find? "+mapNow+" "+el+"))", trOne(recArgs(false)), body)
+	} else {
+		if valName != "" {
+			body = trLet(valName, et, trOne(el), body)
+		}
+		if keyName != "" {
+			body = trLet(keyName, "Int", trOne(idx), body)
+		}
+	}
+	def := trLines{"match " + items + " with", "| [] => " + exit, "| " + el + " :: " + items + " =>"}
+	def = append(def, body.indent(2)...)
+	ps := append([]string{}, params...)
+	ps = append(ps, "("+items+" : List "+et+")")
+	if idx != "" {
+		ps = append(ps, "("+idx+" : Int)")
+	}
+	ps = append(ps, sparams...)
+	head := "def " + name + " " + strings.Join(ps, " ") + " : " + resTy + " :="
+	c.aux = append(c.aux, "/-- range loop of `"+c.fn.leanName+"` at "+c.t.l.relPos(x.Pos())+"; state: "+strings.Join(sargs, ", ")+" -/\n"+head+"\n"+def.indent(2).String()+"\n")
+
+	// ---- the call
+	list := xs
+	if m != nil {
+		c.norder++
+		ord := "order" + itoa(c.norder)
+		c.extraParams = append(c.extraParams, "("+ord+" : List "+et+")")
+		list = ord
+	}
+	callParts := append([]string{}, callArgs...)
+	callParts = append(callParts, list)
+	if idx != "" {
+		callParts = append(callParts, "(0 : Int)")
+	}
+	callParts = append(callParts, sargs...)
+	call := name + " " + strings.Join(callParts, " ")
+	st := c.fresh("st")
+	if !flow && len(state) == 1 {
+		st = c.names[state[0]]
+	}
+	var after trLines
+	if flow {
+		r := c.fresh("r")
+		next := c.unpack(st, state, k())
+		after = trLines{"match " + r + " with", "| Flow.ret v => " + c.retRaw("v", x.Pos())[0], "| Flow.next " + st + " =>"}
+		after = append(after, next.indent(2)...)
+		if effect {
+			return trWrapPre(pre, trBind(r, call, after))
+		}
+		return trWrapPre(pre, trLet(r, "", trOne(call), after))
+	}
+	after = c.unpack(st, state, k())
+	if effect {
+		return trWrapPre(pre, trBind(st, call, after))
+	}
+	if len(state) == 0 {
+		return trWrapPre(pre, after)
+	}
+	return trWrapPre(pre, trLet(st, ttyp, trOne(call), after))
 }
